@@ -18,6 +18,7 @@ import (
 	"regexp"
 	"strconv"
 	"strings"
+	"sync"
 	"testing"
 	"time"
 
@@ -90,11 +91,72 @@ func TestC05CLI(t *testing.T) {
 		r.Inconcl("harness does not represent the CLI (" + what + "): " + detail)
 	}
 
+	// Binary invocations are independent processes: they are queued, run by a small
+	// pool, and compared with the harness afterwards (the harness side stays
+	// sequential: interpreter settings are process-global).
+	type job struct {
+		dir   string
+		args  []string
+		out   string
+		errT  string
+		exit  int
+		to    bool
+		after func(j *job)
+	}
+
+	var jobs []*job
+
+	seq := 0
 	write := func(name, src string) string {
-		p := filepath.Join(arena, name)
+		seq++
+		d := filepath.Join(arena, fmt.Sprintf("cli-%03d", seq))
+		_ = os.MkdirAll(d, 0o755)
+		p := filepath.Join(d, name)
 		_ = os.WriteFile(p, []byte(src), 0o644)
 
 		return p
+	}
+
+	enqueue := func(path string, after func(j *job), args ...string) {
+		jobs = append(jobs, &job{dir: filepath.Dir(path), args: args, after: after})
+	}
+
+	runJobs := func() {
+		// one sequential invocation first: a fresh HOME is initialised (profile,
+		// library) by a single process, not by eight racing ones
+		warm := write("warm.ego", "package main\n\nfunc main() {\n}\n")
+		if _, _, _, to := runEgo(bin, filepath.Dir(warm), "fmt", warm); to {
+			r.Count("inconclusive.cli_watchdog", 1)
+		}
+
+		sem := make(chan struct{}, 8)
+
+		var wg sync.WaitGroup
+
+		for _, j := range jobs {
+			wg.Add(1)
+			sem <- struct{}{}
+
+			go func(j *job) {
+				defer func() { <-sem; wg.Done() }()
+
+				j.out, j.errT, j.exit, j.to = runEgo(bin, j.dir, j.args...)
+			}(j)
+		}
+
+		wg.Wait()
+
+		for _, j := range jobs {
+			if j.to {
+				r.Count("inconclusive.cli_watchdog", 1)
+
+				continue
+			}
+
+			j.after(j)
+		}
+
+		jobs = nil
 	}
 
 	// ---- fmt ---------------------------------------------------------------
@@ -106,25 +168,20 @@ func TestC05CLI(t *testing.T) {
 			args = append(args, "--fragment")
 		}
 
-		out, errText, exit, to := runEgo(bin, arena, append(args, p)...)
-		if to {
-			r.Count("inconclusive.cli_watchdog", 1)
+		enqueue(p, func(j *job) {
+			want, herr := cliFormat(src, mode)
+			r.Eval(vh.Hash("fmt", mode, src), true)
+			r.Count("crosscheck.fmt."+mode.String(), 1)
 
-			return
-		}
-
-		want, herr := cliFormat(src, mode)
-		r.Eval(vh.Hash("fmt", mode, src), true)
-		r.Count("crosscheck.fmt."+mode.String(), 1)
-
-		switch {
-		case (herr != nil) != (exit != 0):
-			mismatch("fmt-outcome", fmt.Sprintf("%s: harness error=%v, binary exit=%d stderr=%q", id, herr, exit, trunc(errText, 200)))
-		case herr == nil && strings.TrimRight(out, "\n") != strings.TrimRight(want, "\n"):
-			mismatch("fmt-text", fmt.Sprintf("%s: %s", id, firstDiff(want, out)))
-		default:
-			r.Count("crosscheck.fmt.agree", 1)
-		}
+			switch {
+			case (herr != nil) != (j.exit != 0):
+				mismatch("fmt-outcome", fmt.Sprintf("%s: harness error=%v, binary exit=%d stderr=%q", id, herr, j.exit, trunc(j.errT, 200)))
+			case herr == nil && strings.TrimRight(j.out, "\n") != strings.TrimRight(want, "\n"):
+				mismatch("fmt-text", fmt.Sprintf("%s: %s", id, firstDiff(want, j.out)))
+			default:
+				r.Count("crosscheck.fmt.agree", 1)
+			}
+		}, append(args, p)...)
 	}
 
 	files := corpusFiles(root)
@@ -181,27 +238,23 @@ func TestC05CLI(t *testing.T) {
 		}
 
 		fp := write("cli_run.ego", src)
-		out, errText, exit, to := runEgo(bin, arena, "run", fp)
+		names := p.Names
 
-		if to {
-			r.Count("inconclusive.cli_watchdog", 1)
+		enqueue(fp, func(j *job) {
+			r.Eval(vh.Hash("run", src), true)
+			r.Count("crosscheck.run", 1)
 
-			continue
-		}
+			cliOutcome := "ok"
+			if j.exit != 0 {
+				cliOutcome = "error"
+			}
 
-		r.Eval(vh.Hash("run", src), true)
-		r.Count("crosscheck.run", 1)
-
-		cliOutcome := "ok"
-		if exit != 0 {
-			cliOutcome = "error"
-		}
-
-		if maskPos(out) != hb.Out || cliOutcome != hb.Outcome {
-			mismatch("run", fmt.Sprintf("snippets %v: harness %s / binary exit=%d out=%q err=%q", p.Names, hb.String(), exit, trunc(out, 200), trunc(errText, 200)))
-		} else {
-			r.Count("crosscheck.run.agree", 1)
-		}
+			if maskPos(j.out) != hb.Out || cliOutcome != hb.Outcome {
+				mismatch("run", fmt.Sprintf("snippets %v: harness %s / binary exit=%d out=%q err=%q", names, hb.String(), j.exit, trunc(j.out, 200), trunc(j.errT, 200)))
+			} else {
+				r.Count("crosscheck.run.agree", 1)
+			}
+		}, "run", fp)
 	}
 
 	// ---- test --------------------------------------------------------------
@@ -224,48 +277,47 @@ func TestC05CLI(t *testing.T) {
 		name := filepath.Base(rel)
 
 		fp := write(name, string(b))
-		out, errText, _, to := runEgo(bin, arena, "test", fp)
+		src := string(b)
 
-		if to {
-			r.Count("inconclusive.cli_watchdog", 1)
+		enqueue(fp, func(j *job) {
+			out, errText := j.out, j.errT
+			h1 := runTestFile(src, name, arena, false)
+			h2 := runTestFile(src, name, arena, false)
 
-			continue
-		}
+			if h1.Passed != h2.Passed || h1.Failed != h2.Failed || h1.Vector() != h2.Vector() {
+				r.Count("crosscheck.test.self_unstable_skipped", 1)
 
-		h1 := runTestFile(string(b), name, arena, false)
-		h2 := runTestFile(string(b), name, arena, false)
-
-		if h1.Passed != h2.Passed || h1.Failed != h2.Failed || h1.Vector() != h2.Vector() {
-			r.Count("crosscheck.test.self_unstable_skipped", 1)
-
-			continue
-		}
-
-		r.Eval(vh.Hash("test", rel), true)
-		r.Count("crosscheck.test", 1)
-
-		var cli TestRun
-
-		cli.parse(out + "\n" + errText)
-
-		total, failed := -1, 0
-		if m := completedRe.FindStringSubmatch(out); m != nil {
-			total, _ = strconv.Atoi(m[1])
-			if m[2] != "" {
-				failed, _ = strconv.Atoi(m[2])
+				return
 			}
-		}
 
-		switch {
-		case total != h1.Passed+h1.Failed || failed != h1.Failed:
-			mismatch("test-totals", fmt.Sprintf("%s: binary total=%d failed=%d, harness passed=%d failed=%d (compile=%q run=%q)", rel, total, failed, h1.Passed, h1.Failed, h1.CompileErr, h1.RunErr))
-		case cli.Vector() != h1.Vector():
-			mismatch("test-vector", fmt.Sprintf("%s: %s", rel, diffVector(cli.Vector(), h1.Vector())))
-		default:
-			r.Count("crosscheck.test.agree", 1)
-			r.Count("crosscheck.test.tests_agreeing", int64(total))
-		}
+			r.Eval(vh.Hash("test", rel), true)
+			r.Count("crosscheck.test", 1)
+
+			var cli TestRun
+
+			cli.parse(out + "\n" + errText)
+
+			total, failed := -1, 0
+			if m := completedRe.FindStringSubmatch(out); m != nil {
+				total, _ = strconv.Atoi(m[1])
+				if m[2] != "" {
+					failed, _ = strconv.Atoi(m[2])
+				}
+			}
+
+			switch {
+			case total != h1.Passed+h1.Failed || failed != h1.Failed:
+				mismatch("test-totals", fmt.Sprintf("%s: binary total=%d failed=%d, harness passed=%d failed=%d (compile=%q run=%q)", rel, total, failed, h1.Passed, h1.Failed, h1.CompileErr, h1.RunErr))
+			case cli.Vector() != h1.Vector():
+				mismatch("test-vector", fmt.Sprintf("%s: %s", rel, diffVector(cli.Vector(), h1.Vector())))
+			default:
+				r.Count("crosscheck.test.agree", 1)
+				r.Count("crosscheck.test.tests_agreeing", int64(total))
+			}
+		}, "test", fp)
 	}
+
+	runJobs()
 
 	if r.Evaluations == 0 {
 		t.Fatal("observed nothing")
